@@ -5,7 +5,9 @@ import (
 	"context"
 	"fmt"
 	"log/slog"
+	"runtime"
 	"strings"
+	"sync"
 	"testing"
 	"time"
 	"unicode"
@@ -301,6 +303,88 @@ func enumerate(t *testing.T, what string, gen func(add func(string) bool)) int {
 		return -1
 	}
 	return n
+}
+
+// chunkSink is a destination that is not atomic per Write call (a buffered or network writer): it takes the payload
+// in small pieces and lets other goroutines run in between. Only the pieces are protected by its own lock.
+type chunkSink struct {
+	mu  sync.Mutex
+	buf []byte
+}
+
+func (c *chunkSink) Write(p []byte) (int, error) {
+	n := len(p)
+	for len(p) > 0 {
+		k := min(len(p), 11)
+		c.mu.Lock()
+		c.buf = append(c.buf, p[:k]...)
+		c.mu.Unlock()
+		p = p[k:]
+		runtime.Gosched()
+	}
+	return n, nil
+}
+
+// TestLinesFromSeveralLoggers: "every record the handler writes is exactly one line that splits unambiguously into key=value tokens"
+// as the destination sees it, also when the root logger and loggers derived from it write at the same time into a
+// destination that takes each Write in pieces. (That the Write calls themselves never overlap is C02's statement; here
+// only the outcome counts: whole lines.)
+func TestLinesFromSeveralLoggers(t *testing.T) {
+	rt.Check(t, 40, 20000, func(t *rapid.T) {
+		sink := &chunkSink{}
+		root := logger.New(logger.NewTextHandler(sink, logger.NewOptions(logger.LevelDebug, false, rapid.Bool().Draw(t, "addSource"))))
+		g := rapid.IntRange(2, 8).Draw(t, "goroutines")
+		per := rapid.IntRange(5, 60).Draw(t, "records")
+		loggers := make([]*logger.Logger, g)
+		for i := range loggers {
+			loggers[i] = root
+			if rapid.IntRange(0, 3).Draw(t, "derived") > 0 {
+				loggers[i] = lm.Derive(root, lm.GenChain(genOpts, 3).Draw(t, "chain"))
+			}
+		}
+		attrs := lm.GenNodes(genOpts, 3).Draw(t, "attrs")
+		var wg sync.WaitGroup
+		for i := range loggers {
+			wg.Add(1)
+			go func(i int) {
+				defer wg.Done()
+				for k := 0; k < per; k++ {
+					lm.Emit(loggers[i], 2, logger.LevelInfo, fmt.Sprintf("id-%d-%d", i, k), attrs)
+				}
+			}(i)
+		}
+		wg.Wait()
+		out := string(sink.buf)
+		if !strings.HasSuffix(out, "\n") {
+			t.Fatalf("the output does not end with a newline: ...%q", out[max(0, len(out)-120):])
+		}
+		lines := strings.Split(strings.TrimSuffix(out, "\n"), "\n")
+		seen := map[string]bool{}
+		for _, l := range lines {
+			toks, err := lm.Tokenize([]byte(l + "\n"))
+			if err != nil {
+				t.Fatalf("%d goroutines, %d records each: a line of the output does not split into key=value tokens (%v): %q", g, per, err, l[:min(len(l), 400)])
+			}
+			id := ""
+			for _, tk := range toks {
+				if tk.Key == "msg" {
+					id = tk.Val // the record's own message comes first; an attribute may be keyed "msg" as well
+					break
+				}
+			}
+			if !strings.HasPrefix(id, "id-") || seen[id] {
+				t.Fatalf("line with msg %q: unknown or repeated record: %q", id, l[:min(len(l), 400)])
+			}
+			seen[id] = true
+		}
+		if len(lines) != g*per {
+			t.Fatalf("%d lines for %d records", len(lines), g*per)
+		}
+		ev.Label("concurrent_loggers_into_a_chunking_destination")
+		ev.Case(true, ev.Hash("chunk", fmt.Sprint(g, per), lm.RenderNodes(attrs)), func() string {
+			return fmt.Sprintf("%d goroutines (root and derived loggers) x %d records into a destination that takes each Write in 11-byte pieces", g, per)
+		})
+	})
 }
 
 func TestExhaustiveShortStrings(t *testing.T) {
